@@ -26,7 +26,7 @@ SERVICE = 'Carrier'
 OWN_GRPC_PREFIX = f'/{PKG}.'          # any service of the carrier API itself
 OWN_REST_PREFIX = '/own/'
 IAM = ('SetIamPolicy', 'GetIamPolicy', 'TestIamPermissions')
-MUTANTS = ['no_yield', 'last_service_decides', 'yield_to_any_iam_name', 'sorted_bindings', 'ignore_apis', 'expose_without_rule', 'async_lacks_one', 'legacy_sync_only', 'wrong_path',
+MUTANTS = ['no_yield', 'last_service_decides', 'yield_to_any_iam_name', 'sorted_bindings', 'first_rule_wins', 'ignore_apis', 'expose_without_rule', 'async_lacks_one', 'legacy_sync_only', 'wrong_path',
            'raw_response', 'header_name_for_iam', 'no_header', 'rest_wrong_verb', 'rest_drops_body']
 CALL_FIELDS = ('svc', 'm', 'kind', 'via', 'path', 'reqtype', 'resptype', 'hkey', 'hval', 'verb', 'body', 'extra')
 ASPECT = dict(via='own-rpc', path='path', reqtype='request-type', resptype='response-type', hkey='routing-header',
@@ -89,6 +89,8 @@ def cfg_key(c):
     mode = own_label(c) if c['own'] else 'legacy' if c['legacy'] else 'plain'
     if c['addl'] != 'none':
         rules += '+' + c['addl']
+    if c['dup']:
+        rules += '+dup'
     return (f"{c['tmpl']}/apis={api}/rules={rules}/{mode}/"
             f"{'+'.join(c['transports'])}")
 
@@ -262,7 +264,7 @@ def keys_of(diffs):
 
 
 def trace_cfg(case):
-    return dict(apis=case['apis'], rulecode=case['rulecode'], addl=case['addl'], own=case['own'], layout=case['layout'], legacy=case['legacy'], tmpl=case['tmpl'],
+    return dict(apis=case['apis'], rulecode=case['rulecode'], addl=case['addl'], dup=case['dup'], own=case['own'], layout=case['layout'], legacy=case['legacy'], tmpl=case['tmpl'],
                 transports=case['transports'], clients=case['clients'])
 
 
@@ -271,7 +273,7 @@ def pick_quick(keys, by_key, rnd, n=36):
     def find(pred, tmpl='default'):
         return next(k for k in keys if by_key[k][0]['tmpl'] == tmpl and pred(by_key[k][0]))
     allv = lambda c, v: all(x == v for x in c['rulecode'].values())
-    full = lambda c, v: allv(c, v) and c['addl'] == 'none'
+    full = lambda c, v: allv(c, v) and c['addl'] == 'none' and not c['dup']
     corners = [
         find(lambda c: len(c['apis']) == 3 and full(c, 1) and not c['own'] and not c['legacy'] and c['transports'] == ['grpc', 'rest']),
         find(lambda c: len(c['apis']) == 3 and full(c, 2) and not c['own'] and not c['legacy'] and c['transports'] == ['grpc', 'rest']),
@@ -285,9 +287,12 @@ def pick_quick(keys, by_key, rnd, n=36):
         find(lambda c: len(c['apis']) == 3 and sorted(c['own']) == ['GetIamPolicy', 'SetIamPolicy'] and c['rulecode']['SetIamPolicy'] and
              c['rulecode']['GetIamPolicy'] and not c['rulecode']['TestIamPermissions']),
         # additional bindings that sort before / after the primary one
-        find(lambda c: len(c['apis']) == 3 and allv(c, 1) and c['addl'] == 'before' and not c['own'] and not c['legacy']
+        find(lambda c: len(c['apis']) == 3 and allv(c, 1) and c['addl'] == 'before' and not c['dup'] and not c['own'] and not c['legacy']
              and c['transports'] == ['grpc', 'rest']),
-        find(lambda c: len(c['apis']) == 3 and allv(c, 2) and c['addl'] == 'after' and not c['own'] and not c['legacy']
+        find(lambda c: len(c['apis']) == 3 and allv(c, 2) and c['addl'] == 'after' and not c['dup'] and not c['own'] and not c['legacy']
+             and c['transports'] == ['grpc', 'rest']),
+        # every selector twice in the YAML (older rule first): the last rule counts
+        find(lambda c: len(c['apis']) == 3 and allv(c, 1) and c['dup'] and not c['own'] and not c['legacy']
              and c['transports'] == ['grpc', 'rest']),
         find(lambda c: len(c['apis']) == 3 and full(c, 1) and c['legacy'] and c['transports'] == ['grpc', 'rest']),
         find(lambda c: len(c['apis']) == 0 and full(c, 0) and c['legacy'] and c['transports'] == ['grpc']),
@@ -454,8 +459,8 @@ def main(chk, args):
         'add-iam-methods is not generated (the two clauses of the property contradict each other there)',
         'with add-iam-methods the IAM methods have no http rule: REST calls of them are outside the property',
         'http rules have body "*" or no body and at most one additional binding of the same pattern (uri sorting before / after the primary); the REST '
-        'call must use the first matching binding in declaration order; rule sets form an orthogonal array of strength 2 over '
-        '{absent, rule 1, rule 2}^10 plus all-on (thorough); quick = 15 fixed corners (one Ads, two with two services, two with a proper subset of own IAM RPCs, two with additional bindings) + seeded sample',
+        'call must use the first matching binding in declaration order; with `dup` every selector occurs twice in http.rules and the last rule counts; rule sets form an orthogonal array of strength 2 over '
+        '{absent, rule 1, rule 2}^10 plus all-on (thorough); quick = 16 fixed corners (one Ads, two with two services, two with a proper subset of own IAM RPCs, two with additional bindings, one with every selector twice) + seeded sample',
         'the Ads template set and REST-only libraries have no asyncio client: the property is read over the clients that exist',
     ]
     chk.extra['configurations'] = len(keys)
